@@ -909,6 +909,8 @@ Definition legal (ps : pstate) (p : prim) : bool :=
       match cell_val (hp ps) a with
       | Some (VMapB m) => negb (mst_eqb (m_st m) MFinished)     (* BeginMap after Finish: overwrites w.t, w.m *)
       | Some (VListB l) => negb (lst_eqb (l_st l) LFinished)
+      | Some (VAnyB _ m l _) =>                                  (* a stale assembler handle finished it after Reset *)
+          negb (mst_eqb (m_st m) MFinished) && negb (lst_eqb (l_st l) LFinished)
       | _ => true
       end
   | PAssign (HBuilder a) _ | PAssignNode (HBuilder a) _ | PAssignBytes (HBuilder a) _ =>
